@@ -17,7 +17,7 @@ from . import common as C
 OCAML = ["c07"]
 GO = ["c07", "c07shape"]
 PROP = "props/C07.v"
-PROOFS = ["proofs/LifecycleInv.v", "proofs/LifecycleStep.v", "proofs/LifecycleMain.v", "proofs/LifecycleMono.v",
+PROOFS = ["proofs/LifecycleInv.v", "proofs/LifecycleStep.v", "proofs/LifecycleMain.v", "proofs/LifecycleMono.v", "proofs/LifecycleMeasure.v",
           "proofs/LifecycleRunnerProofs.v", "model/Lifecycle.v", "model/LifecycleRunner.v", "gen/RunnerShape.v"]
 HOOK = "supervisor/lifecycle/verif_on.go (var VerifYield func(point string)) + verifYield calls in startstop.go"
 CORPUS = os.path.join(C.VERIF, "corpus", "C07", "schedules.txt")
@@ -155,14 +155,15 @@ def regen_shape(run):
     if not okb:
         run.violation("build-go-shape", {"log": log[-3000:]}, "the C07 source-shape translator does not build", True)
         return None
-    with C.Lock("coq"):
-        p = subprocess.run([os.path.join(C.BIN, "c07shape"), "-repo", C.REPO, "-o", SHAPE_V],
-                           stdout=subprocess.PIPE, stderr=subprocess.PIPE, timeout=120)
+    tmp = C.gen_tmp("RunnerShape.v")
+    p = subprocess.run([os.path.join(C.BIN, "c07shape"), "-repo", C.REPO, "-o", tmp],
+                       stdout=subprocess.PIPE, stderr=subprocess.PIPE, timeout=120)
     facts = [l for l in p.stderr.decode().splitlines() if l.startswith("shape ")]
-    if p.returncode not in (0, 1) or len(facts) != 3:
+    if p.returncode not in (0, 1) or len(facts) != 3 or not os.path.exists(tmp):
         run.violation("shape-translator-failed", {"rc": p.returncode, "stderr": p.stderr.decode()[-2000:]},
                       "harness/cmd/c07shape failed on the repo under test", True)
         return None
+    C.install_gen("RunnerShape.v", tmp)      # atomically, only if changed; put back after a run on a scratch tree
     return facts
 
 
@@ -190,7 +191,8 @@ def run(run):
         run.violation("build-ocaml", {"log": log[-3000:]}, "model driver does not build", True)
         return
     acc = Acc()
-    xfile = os.path.join(C.BUILD, "c07_xcheck_%s.v" % run.tier)
+    os.makedirs(C.VMDIR, exist_ok=True)
+    xfile = os.path.join(C.VMDIR, "C07_c07_cases.v")
     if os.path.exists(xfile):
         os.unlink(xfile)
     # corpus first (includes the witnesses of the repaired defect F14 as regressions)
@@ -219,7 +221,12 @@ def run(run):
         for (k, m) in ((4, 2), (2, 4), (3, 4), (4, 3)):
             for i in range(shards):
                 jobs.append((["-mode", "dfs", "-k", str(k), "-m", str(m), "-shard", str(i), "-shards", str(shards)], None))
-    nrand = 400 if run.tier == "quick" else 200000
+    nrand = run.scaled(400) if run.tier == "quick" else 200000     # anchor drift: escalated budget
+    if run.tier == "quick" and run.escalate > 1:
+        # ... and the next exhaustive family beyond k,m <= 2
+        for (k, m) in ((3, 2), (2, 3)):
+            for i in range(shards):
+                jobs.append((["-mode", "dfs", "-k", str(k), "-m", str(m), "-shard", str(i), "-shards", str(shards)], None))
     rshards = 4 if run.tier == "quick" else 16
     for i in range(rshards):
         jobs.append((["-mode", "random", "-k", "6", "-m", "6", "-n", str(nrand // rshards), "-seed", str(run.seed * 1000 + i)], None))
@@ -230,14 +237,8 @@ def run(run):
     report(run, acc)
     # kernel re-evaluation of sampled executions (extraction cross-check)
     xok = None
-    if os.path.exists(xfile) and proof_ok:
-        with C.Lock("coq"):
-            rc, out = C.sh(["timeout", "600", "coqc"] + C.coq_flags() + [xfile], cwd=C.COQ)
-        xok = rc == 0
-        if not xok:
-            run.violation("corr-extraction", {"file": xfile, "log": out[-2000:],
-                                              "theorem": "extracted OCaml model = Coq model (vm_compute re-evaluation of sampled executions)"},
-                          "a sampled execution re-evaluated inside Coq disagrees with the extracted model/implementation", True)
+    if proof_ok:
+        xok = C.vm_crosscheck_file(run, "c07", xfile, acc.stats.get("emitted", 0))
     n_runner, bad_runner = runners(run)
     if shape_broken:
         # C07_runners_shape no longer holds (props/C07.v failed to build -> reported by proof_leg as a broken
